@@ -200,6 +200,9 @@ def docstring(
             line = candidate_doc_str[prev_nl:next_nl]
             if not line.isspace():
                 break
+            prev_nl, next_nl = next_nl + 1, candidate_doc_str.find("\n", next_nl + 1)
+        else:
+            line, next_nl = candidate_doc_str[prev_nl:], len(candidate_doc_str)
             # prev_nl = next_nl
             # current_indent:int = count_iter_items(takewhile(str.isspace, line))
 
